@@ -99,6 +99,53 @@ Section Full.
     let t := Nat.pred (tstep s) in
     let s2 := rev_E t ie9 (rev_H t im9 s) in
     mkSt t (fE s2) (fH s2) (psiE s2) (psiH s2).
+
+  (* ================= the conductive (lossy) fully anisotropic tiers =================
+     fdtd/misc.py compute_anisotropic_update_matrices with a conductivity tensor:
+       factor = (c * eta_factor / 2) * (T @ sigma);  M1 = I + factor;  M2 = I - factor;
+       A = M1^-1 @ M2;  B = c * M1^-1 @ T           (jnp.linalg.solve per cell; here: adjugate / determinant)
+     fdtd/update.py update_E / update_H "Full anisotropic case":
+       E' = A (.) E_colocated + B (.) K_colocated,   H' = A (.) H_colocated - B (.) K_colocated *)
+  Definition m9mul (X Y : T9) : T9 :=
+    fun r s i j k => X r 0%nat i j k * Y 0%nat s i j k + X r 1%nat i j k * Y 1%nat s i j k + X r 2%nat i j k * Y 2%nat s i j k.
+  Definition m9id : T9 := fun r s _ _ _ => if Nat.eqb r s then 1 else 0.
+  Definition m9lin (a : car K) (X : T9) (b : car K) (Y : T9) : T9 := fun r s i j k => a * X r s i j k + b * Y r s i j k.
+  Definition nx3 (r : nat) : nat := match r with O => 1 | S O => 2 | _ => 0 end.        (* r + 1 mod 3 *)
+  Definition pv3 (r : nat) : nat := match r with O => 2 | S O => 0 | _ => 1 end.        (* r + 2 mod 3 *)
+  (* cofactor C(r, s) = M[r+1, s+1] M[r+2, s+2] - M[r+1, s+2] M[r+2, s+1]  (cyclic indices: the sign is absorbed) *)
+  Definition cof (M : T9) (r s : nat) : R3 K :=
+    fun i j k => M (nx3 r) (nx3 s) i j k * M (pv3 r) (pv3 s) i j k - M (nx3 r) (pv3 s) i j k * M (pv3 r) (nx3 s) i j k.
+  Definition det9 (M : T9) : R3 K :=
+    fun i j k => M 0%nat 0%nat i j k * cof M 0%nat 0%nat i j k + M 0%nat 1%nat i j k * cof M 0%nat 1%nat i j k + M 0%nat 2%nat i j k * cof M 0%nat 2%nat i j k.
+  Definition m9inv (M : T9) : T9 := fun r s i j k => cof M s r i j k / det9 M i j k.          (* adjugate = transposed cofactors *)
+  Definition lossy_M1 (etaf : car K) (T sg : T9) : T9 := m9lin 1 m9id (cn K sc * etaf / two K) (m9mul T sg).
+  Definition lossy_M2 (etaf : car K) (T sg : T9) : T9 := m9lin 1 m9id (0 - cn K sc * etaf / two K) (m9mul T sg).
+  Definition lossy_A (etaf : car K) (T sg : T9) : T9 := m9mul (m9inv (lossy_M1 etaf T sg)) (lossy_M2 etaf T sg).
+  Definition lossy_B (etaf : car K) (T sg : T9) : T9 := m9lin (cn K sc) (m9mul (m9inv (lossy_M1 etaf T sg)) T) 0 m9id.
+
+  (* row r of a tensor applied to the co-located vector (no Courant factor) *)
+  Definition trow1 (avg : A3 K -> nat -> nat -> A3 K) (T : T9) (v : V3 K) (r : nat) : A3 K :=
+    fun i j k => cadd (cadd (cscal (T r 0%nat i j k) (at_loc avg v r 0%nat i j k))
+                            (cscal (T r 1%nat i j k) (at_loc avg v r 1%nat i j k)))
+                      (cscal (T r 2%nat i j k) (at_loc avg v r 2%nat i j k)).
+  Definition tvec1 (avg : A3 K -> nat -> nat -> A3 K) (T : T9) (v : V3 K) : V3 K :=
+    mkV (trow1 avg T v 0%nat) (trow1 avg T v 1%nat) (trow1 avg T v 2%nat).
+
+  (* the two half steps with explicit update matrices A, B *)
+  Definition update_E_AB (sim : bool) (A B : T9) (s : state K) : state K :=
+    let '(kc, psi') := curlH K sc sim (fH s) (psiE s) in
+    mkSt (tstep s) (vmask K (mE K sc) (vadd K (vadd K (tvec1 avgE A (fE s)) (tvec1 avgE B kc)) (injE K sc (tstep s)))) (fH s) psi' (psiH s).
+  Definition update_H_AB (sim : bool) (A B : T9) (s : state K) : state K :=
+    let '(kc, psi') := curlE K sc sim (fE s) (psiH s) in
+    mkSt (tstep s) (fE s) (vmask K (mH K sc) (vadd K (vsub K (tvec1 avgH A (fH s)) (tvec1 avgH B kc)) (injH K sc (tstep s)))) (psiE s) psi'.
+  (* tiers: None = iso / diagonal tier of model/Yee.v, Some (T, sigma) = conductive full tensor *)
+  Definition upd_E_lossy (sim : bool) (e : option (T9 * T9)) (s : state K) : state K :=
+    match e with Some (T, sg) => update_E_AB sim (lossy_A (eta0 K sc) T sg) (lossy_B (eta0 K sc) T sg) s | None => update_E K sc sim s end.
+  Definition upd_H_lossy (sim : bool) (m : option (T9 * T9)) (s : state K) : state K :=
+    match m with Some (T, sg) => update_H_AB sim (lossy_A (1 / eta0 K sc) T sg) (lossy_B (1 / eta0 K sc) T sg) s | None => update_H K sc sim s end.
+  Definition forward_lossy (e m : option (T9 * T9)) (s : state K) : state K :=
+    let s2 := upd_H_lossy true m (upd_E_lossy true e s) in
+    mkSt (S (tstep s)) (fE s2) (fH s2) (psiE s2) (psiH s2).
 End Full.
 
 (* executed versions and literals *)
@@ -106,6 +153,7 @@ Section FullExec.
   Variable K : Fld.
   Definition forward_fullX (sc : scene K) (ie9 im9 : option (T9 K)) (s : state K) : state K := freezeS K sc (forward_full K sc ie9 im9 s).
   Definition backward_fullX (sc : scene K) (ie9 im9 : option (T9 K)) (s : state K) : state K := freezeS K sc (backward_full K sc ie9 im9 s).
+  Definition forward_lossyX (sc : scene K) (e m : option (T9 K * T9 K)) (s : state K) : state K := freezeS K sc (forward_lossy K sc e m s).
   (* tensor from a row-major list of nine nested-list arrays *)
   Definition T9_of (nx ny nz : nat) (d : car K) (l : list (L3 (car K))) : T9 K :=
     fun r s => of3 d nx ny nz (nth (3 * r + s) l []).
